@@ -46,6 +46,10 @@ pub struct Plan {
     /// milliseconds of virtual time
     #[serde(default)]
     pub slow_inside_ms: u64,
+    /// fault: the first call that enters the wrapped recorder passes this many scheduling points
+    /// inside (into_inner polls all the while)
+    #[serde(default)]
+    pub busy_inside: u64,
 }
 
 #[derive(Clone, Debug)]
@@ -97,7 +101,7 @@ impl Scenario for C20Recoverable {
                 _ => Em::DescHistogram,
             }).collect());
         }
-        Plan { emitters, recover: r.chance(700), delay: r.below(4) as u32, install_fails: r.chance(300), keep_handles: r.chance(300), via_install: r.chance(400), slow_inside_ms: if r.chance(150) { *r.pick(&[1u64, 250, 1000]) } else { 0 } }
+        Plan { emitters, recover: r.chance(700), delay: r.below(4) as u32, install_fails: r.chance(300), keep_handles: r.chance(300), via_install: r.chance(400), slow_inside_ms: if r.chance(150) { *r.pick(&[1u64, 250, 1000]) } else { 0 }, busy_inside: if r.chance(6) { 120_000 } else { 0 } }
     }
     fn execute(&self, plan: &Plan, sched: &SchedSpec) -> RunReport {
         // one run = one process life as far as the global recorder cell is concerned
@@ -106,12 +110,14 @@ impl Scenario for C20Recoverable {
         let shared = Shared::new(log.clone());
         shared.yield_inside.store(true, Ordering::SeqCst);
         shared.sleep_inside_ns.store(plan.slow_inside_ms * 1_000_000, Ordering::SeqCst);
+        shared.busy_inside.store(plan.busy_inside, Ordering::SeqCst);
+        let max_steps = if plan.busy_inside > 0 { 1_000_000 } else { 40_000 };
         let evs: Arc<Mutex<Vec<EmEv>>> = Arc::new(Mutex::new(vec![]));
         // (rec inv, rec ret, in_flight at return, intact)
         let recov: Arc<Mutex<(u64, u64, i64, bool)>> = Arc::new(Mutex::new((0, 0, 0, true)));
         let p = plan.clone();
         let (sh2, ev2, rc2, log2) = (shared.clone(), evs.clone(), recov.clone(), log.clone());
-        let sim = simulate(sched, 40_000, move || {
+        let sim = simulate(sched, max_steps, move || {
             let rec = LogRecorder::new(7, sh2.clone());
             let (wrapped, handle): (Option<Arc<dyn Recorder + Send + Sync>>, _) = if p.via_install {
                 match RecoverableRecorder::new(rec).install() {
@@ -363,6 +369,12 @@ impl Scenario for C20Recoverable {
         }
         if p.keep_handles {
             out.push(Plan { keep_handles: false, ..p.clone() });
+        }
+        if p.busy_inside > 0 {
+            out.push(Plan { busy_inside: 0, ..p.clone() });
+        }
+        if p.slow_inside_ms > 0 {
+            out.push(Plan { slow_inside_ms: 0, ..p.clone() });
         }
         if p.emitters.len() > 1 {
             for i in 0..p.emitters.len() {
